@@ -81,7 +81,8 @@ def c01(tier, seed):
 @prop('C03')
 def c03(tier, seed):
     from . import overlay
-    plan = [('UO3', 2, dict(ncfg=60 if tier == 'quick' else None, k1_ops=overlay.HIST_OPS, k2=6 if tier == 'quick' else 60, k3=2 if tier == 'quick' else 20, removal_first=True))]
+    plan = [('UO3', 2, dict(ncfg=60 if tier == 'quick' else None, k1_ops=overlay.HIST_OPS, k2=6 if tier == 'quick' else 60, k3=2 if tier == 'quick' else 20, removal_first=True)),
+            ('UOW', 2, dict(ncfg=60 if tier == 'quick' else 400, k1_ops=['remove_file', 'remove_dir', 'remove_dir_all'], k2=4 if tier == 'quick' else 20, removal_first=True, then_parent=True))]
     if tier != 'quick':
         plan += [('UO3', 3, dict(ncfg=300, k1_ops=overlay.HIST_OPS, k2=10, removal_first=True)), ('UO4', 2, dict(ncfg=300, k1_ops=overlay.HIST_OPS, k2=10, removal_first=True))]
     return run_onestep('C03', tier, seed, ['mem', 'alt:/a'], ['mem', 'alt:/a', 'alt:/a/b', 'altalt'], ALL_OPS, overlay_plan=plan)
@@ -146,7 +147,7 @@ def c06(tier, seed):
 
 # ------------------------------------------------------------------------------------------ overlay
 
-def ovl_cases(universe, nlayers, props_, seed, ncfg=None, k1_ops=None, k2=0, k3=0, removal_first=False, max_nodes=None, layer_kind='mem', k2_first=None):
+def ovl_cases(universe, nlayers, props_, seed, ncfg=None, k1_ops=None, k2=0, k3=0, removal_first=False, max_nodes=None, layer_kind='mem', k2_first=None, recreate=0, then_parent=False):
     """cases for overlay.run_history_case: per layer configuration a list of histories"""
     from . import overlay
     u = UNIVERSES[universe]()
@@ -177,6 +178,24 @@ def ovl_cases(universe, nlayers, props_, seed, ncfg=None, k1_ops=None, k2=0, k3=
             o3, v3 = rng.choice(overlay.HIST_OPS), rng.choice([v1, v2] + real)
             three.append([(o1, v1), (o2, v2), (o3, v3)])
         hs += three
+        if recreate:
+            # the core of C10: remove an entry, re-create it (same or other type), observe; optionally once more
+            kinds_ = dict((a_, b_) for a_, b_, c_ in cfg)
+            for v1 in present:
+                rm_ = 'remove_file' if kinds_[v1] == 'f' else 'remove_dir_all'
+                for mk in ('create_dir', 'write'):
+                    hs.append([(rm_, v1), (mk, v1)])
+                    if recreate > 1:
+                        rm2 = 'remove_file' if mk == 'write' else 'remove_dir'
+                        hs.append([(rm_, v1), (mk, v1), (rm2, v1), ('write' if mk == 'create_dir' else 'create_dir', v1)])
+        if then_parent:
+            kinds_ = dict((a_, b_) for a_, b_, c_ in cfg)
+            for v1 in present:
+                par = u.parent(v1)
+                if par != 'R':
+                    rm_ = 'remove_file' if kinds_[v1] == 'f' else 'remove_dir_all'
+                    hs.append([(rm_, v1), ('remove_dir', par)])
+                    hs.append([(rm_, v1), ('remove_dir_all', par)])
         if k2_first:
             # histories that start with the given first calls on entries of this configuration, then any call
             for o1 in k2_first:
@@ -194,7 +213,7 @@ OVL_ASSUMPTIONS = COMMON_ASSUMPTIONS[:4] + [
 ]
 
 
-def run_overlay(pid, tier, seed, plan, extra_props=()):
+def run_overlay(pid, tier, seed, plan, extra_props=(), more=()):
     from . import overlay
     ck = Check(pid, tier, seed)
     prog = load_program()
@@ -210,6 +229,8 @@ def run_overlay(pid, tier, seed, plan, extra_props=()):
     ck.bounds = {'plan': desc, 'file_bytes': '0..2 symbolic per file and layer', 'written_bytes': '1 symbolic',
                  'history_length': 'k<=%d' % (3 if any(kw.get('k3') for _, _, kw in plan) else 2)}
     ck.add(run_cases(prog, overlay.run_history_case, cases), 'overlay bounded histories from symbolic initial layers')
+    for fn_, cs_, desc_ in more:
+        ck.add(run_cases(prog, fn_, cs_), desc_)
     ck.assumptions = OVL_ASSUMPTIONS
     ck.rule = 'a state = one assignment of union-tree nodes to layer sets (layer configuration) with symbolic bytes; a transition = one execution path of one history; non-trivial = at least one entry in a lower layer'
     return ck.finish(prog)
@@ -235,16 +256,18 @@ def c10(tier, seed):
     from . import overlay
     rm = ['remove_file', 'remove_dir', 'remove_dir_all']
     if tier == 'quick':
-        plan = [('UO3', 2, dict(k1_ops=rm, k2=14, k3=6, removal_first=True)),
+        plan = [('UO3', 2, dict(k1_ops=rm, k2=10, k3=4, removal_first=True, recreate=1)),
                 ('UOW', 2, dict(ncfg=60, k1_ops=rm, k2=8, removal_first=True)),
-                ('UO3', 3, dict(ncfg=40, k1_ops=rm, k2=6, removal_first=True))]
+                ('UO3', 3, dict(ncfg=40, k1_ops=rm, k2=6, removal_first=True, recreate=1))]
     else:
-        plan = [('UO3', 2, dict(k1_ops=rm, k2=105, k3=60, removal_first=True)),
+        plan = [('UO3', 2, dict(k1_ops=rm, k2=105, k3=60, removal_first=True, recreate=2)),
                 ('UOW', 2, dict(ncfg=500, k1_ops=rm, k2=40, k3=10, removal_first=True)),
                 ('UO4', 2, dict(ncfg=300, k1_ops=rm, k2=30, k3=10, removal_first=True)),
                 ('UO3', 3, dict(ncfg=400, k1_ops=rm, k2=30, k3=10, removal_first=True)),
                 ('UO3', 4, dict(ncfg=150, k1_ops=rm, k2=10, removal_first=True))]
-    return run_overlay('C10', tier, seed, plan)
+    from . import handles
+    life = [{'cfg': c, 'props': ['C10', 'C13']} for c in ('ovl_upper', 'ovl_lower')]
+    return run_overlay('C10', tier, seed, plan, more=[(handles.run_lifecycle_case, life, 'handles opened through the overlay and flushed/dropped after the file was removed')])
 
 
 @prop('C08')
@@ -334,7 +357,7 @@ def c04(tier, seed):
 @prop('C05')
 def c05(tier, seed):
     from . import overlay
-    plan = [('UO3', 2, dict(ncfg=50 if tier == 'quick' else None, k1_ops=overlay.HIST_OPS, k2=3 if tier == 'quick' else 30)),
+    plan = [('UO3', 2, dict(ncfg=50 if tier == 'quick' else None, k1_ops=overlay.HIST_OPS, k2=3 if tier == 'quick' else 30, recreate=1)),
             ('UOW', 2, dict(ncfg=30 if tier == 'quick' else 300, k1_ops=['remove_file', 'remove_dir_all', 'write'], k2=2 if tier == 'quick' else 10))]
     if tier != 'quick':
         plan.append(('UO3', 3, dict(ncfg=200, k1_ops=overlay.HIST_OPS, k2=5)))
